@@ -98,6 +98,9 @@ def extract_api(mod, table):
     return {'api_first_iteration_evaluations': n, 'reaching_the_loop': reached}
 
 
+ORIG = ('k:O', 'k:AO')
+
+
 def mname(m):
     return m if isinstance(m, str) else 'scan mode 0x%02x' % m
 
@@ -165,6 +168,7 @@ def run(rep, tier):
                             raise AnalysisBroken('C08: error flag after an iteration is not decided (%s, %s)' % (kname(K), mname(m)))
                 bad_err = []
                 bad_state = []
+                bad_orig = []
                 for m1, l1 in cls.items():
                     for m2, l2 in cls.items():
                         for (c1, o1) in l1:
@@ -174,6 +178,8 @@ def run(rep, tier):
                                         pairs_err += 1
                                         if stepm.cofeasible(o1, o2):
                                             bad_err.append((m1, o1, m2, o2))
+                                        elif not isinstance(m1, str) and not isinstance(m2, str) and stepm.cofeasible(o1, o2, ORIG):
+                                            bad_orig.append((m1, o1, m2, o2))
                             elif c1 == 'C' and str(m1) < str(m2):
                                 for (c2, o2) in l2:
                                     if c2 == 'C':
@@ -189,6 +195,15 @@ def run(rep, tier):
                 else:
                     rep.ob(True, ob, '', sample={'loop_head_state': kname(K), 'modes': sorted(map(str, bymode)),
                                                  'outcomes': {mname(m): sorted({classify(o) for o in outs}) for m, outs in bymode.items()}})
+                obo = ob.replace('MODE-ERR', 'ORIG-ERR')
+                if bad_orig:
+                    m1, o1, m2, o2 = bad_orig[0]
+                    rep.ob(False, obo, 'C08 ORIG-ERR %s (%s): whether this token raises error %d (%s) or is consumed without an error (%s) depends only on '
+                           'the depth / array depth the CALL started at, not on the current state (verify and a step-wise traversal reach the '
+                           'same token with different call-entry values)' % (kname(K), tag, o1['err'], mname(m1), mname(m2)),
+                           'erroring path:\n  %s\nconsuming path:\n  %s' % ('\n  '.join(o1['path']), '\n  '.join(o2['path'])))
+                else:
+                    rep.ob(True, obo, '')
                 ob = ob.replace('MODE-ERR', 'MODE-STATE')
                 if bad_state:
                     m1, o1, m2, o2 = bad_state[0]
@@ -200,7 +215,8 @@ def run(rep, tier):
             need(counts['E'] >= 50 and counts['C'] >= 50, 'C08: too few error/consume outcomes classified (%r)' % counts)
             rep.coverage.setdefault('outcomes', {})[tag] = dict(counts, err_vs_consume_pairs=pairs_err, consume_pairs=pairs_state)
     rep.coverage.update({
-        'rule': 'MODE-ERR: for every loop-head state (token class x level flags x depth class, everything else symbolic) and every pair of scan '
+        'rule': 'ORIG-ERR: an error outcome and a consuming outcome may not become co-feasible merely by giving them different call-entry depth / array '
+                'depth snapshots; MODE-ERR: for every loop-head state (token class x level flags x depth class, everything else symbolic) and every pair of scan '
                 'modes, no error outcome of one mode is co-feasible with a consuming no-error outcome of the other; MODE-STATE: co-feasible '
                 'consuming outcomes of two modes write the same depth / flags / array depth / name / wipe',
         'trusted_base': ['clang-14 IR', 'engine/absint*.py (step mode)', 'props/stepm.py', 'spec/tokens.json (token classes)'],
